@@ -196,7 +196,8 @@ class PyCells(dict):
         return self._cells[k].cell_contents
 
 
-REPO_ROOTS = [os.path.realpath('/repo'), os.path.realpath(os.path.join(os.path.dirname(__file__), '..', 'contracts'))]
+# (VERIF_REPO: the mutation tooling points the engine at a scratch copy of the repository; the registered checks use /repo)
+REPO_ROOTS = [os.path.realpath(os.environ.get('VERIF_REPO', '/repo')), os.path.realpath(os.path.join(os.path.dirname(__file__), '..', 'contracts'))]
 
 
 def interpretable_class(cls):
